@@ -37,6 +37,8 @@ L2 = [("401000", "call", ["401030"]), ("401005", "call", ["402030"]), ("40100a",
 BIN_SRC = ('.text\n push %rbp\n mov %rsp,%rbp\n ret\n.section .plt,"ax"\n push %rbx\n jmp *%rax\n'
            '.section .text.hot,"ax"\n xor %eax,%eax\n ret\n')
 
+OP_DEADLINE_S = float(os.environ.get("VERIF_CALL_DEADLINE_S", "240"))
+
 LIB_A = {"macros": [{"name": "@wrap", "pattern": [{"$or": ["@inner", "ret"]}]}]}
 LIB_B = {"macros": [{"name": "@wrap", "pattern": [{"$and": ["@inner", "@inner"]}]}]}
 
@@ -125,11 +127,21 @@ def cfg_rule(name):
 
 
 def config_core():
-    """the real global configuration in the vocabulary of tla/JasmConfig.tla"""
+    """the real global configuration in the vocabulary of tla/JasmConfig.tla; ["unbound"] if the configuration object no
+    longer has the structure this binding was written for (a refactoring, not a verdict)"""
+    try:
+        return _config_core()
+    except Exception:  # noqa
+        return ["unbound"]
+
+
+def _config_core():
     from jasm.global_definitions import JASMConfig, PartialMatchingConfig, DisassStyle
     if JASMConfig._instance is None:
         return ["unset"] * 5
     g = JASMConfig.global_info
+    if not isinstance(g, dict):
+        return ["unbound"]
 
     def flag(k):
         return "unset" if k not in g else ("T" if g[k] is True else "F" if g[k] is False else f"?{g[k]!r}")
@@ -174,6 +186,15 @@ def run_op(workdir, name):
         return_mode=MatchingReturnMode.bool if ret == "bool" else MatchingReturnMode.matched_addrs_list,
         matching_mode=MatchingSearchMode.all_finds if mode == "all" else MatchingSearchMode.first_find,
         macros=macros)
+    import signal
+
+    class _Deadline(BaseException):
+        pass
+
+    def _alarm(signum, frame):
+        raise _Deadline()
+    signal.signal(signal.SIGALRM, _alarm)
+    signal.setitimer(signal.ITIMER_REAL, OP_DEADLINE_S)      # an operation that never returns is an outcome, not a hung search
     try:
         mop = MasterOfPuppets(cfg)
         value = mop.perform_matching()
@@ -183,6 +204,8 @@ def run_op(workdir, name):
         if isinstance(e, (KeyboardInterrupt, SystemExit)):
             raise
         return ["raise", type(e).__name__, True]
+    finally:
+        signal.setitimer(signal.ITIMER_REAL, 0)
 
 
 # ----------------------------------------------------------------------------- snapshot
@@ -379,4 +402,10 @@ def main():
 
 
 if __name__ == "__main__":
+    try:     # bounded memory: an operation that allocates without end raises MemoryError, which is an outcome
+        import resource
+        _lim = int(float(os.environ.get("VERIF_WORKER_MEM_GB", "3")) * (1 << 30))
+        resource.setrlimit(resource.RLIMIT_AS, (_lim, _lim))
+    except (ValueError, OSError):
+        pass
     main()
